@@ -11,6 +11,7 @@
 #include <sys/syscall.h>
 #include <sys/timerfd.h>
 #include <unistd.h>
+#include <execinfo.h>
 #include <openssl/ssl.h>
 
 using namespace xs;
@@ -76,6 +77,24 @@ void __real_SSL_free(SSL *);
 namespace xs {
 void (*on_fatal)(const char *oracle, const char *detail) = nullptr;
 void (*on_sim_exit)(int code) = nullptr;
+
+// call chain of the trap, by exported symbol names (static functions show as '?'): identifies the failing site
+static std::string trap_site() {
+    void *bt[16];
+    int n = backtrace(bt, 16);
+    char **sym = backtrace_symbols(bt, n);
+    std::string s;
+    int shown = 0;
+    for (int i = 2; i < n && sym && shown < 6; i++) {
+        const char *l = strchr(sym[i], '('), *r = l ? strchr(l, '+') : nullptr;
+        std::string f = (l && r && r > l + 1) ? std::string(l + 1, r) : std::string("?");
+        if (f.compare(0, 6, "__wrap") == 0 || f.find("fatal_trap") != std::string::npos) continue;
+        if (f.compare(0, 2, "_Z") == 0) break;   // harness frames
+        s += (shown++ ? " < " : "") + f;
+    }
+    free(sym);
+    return s;
+}
 
 static void fatal_trap(const char *oracle, const char *detail) {
     if (G) G->violation(oracle, "%s", detail);
@@ -145,7 +164,7 @@ long __wrap_syscall(long nr, ...) {
 }
 
 void __wrap_abort(void) {
-    if (SIM) fatal_trap("C08.abort", strf("abort() called by library code (task %s, inside %s)", cur()->name.c_str(), cur()->api_name).c_str());
+    if (SIM) fatal_trap("C08.abort", strf("abort() called by library code (task %s, inside %s; call chain: %s)", cur()->name.c_str(), cur()->api_name, trap_site().c_str()).c_str());
     __real_abort();
 }
 void __wrap_exit(int code) {
